@@ -222,8 +222,10 @@ class mapper(object):
                 p = cst(Bits(p[::endian], bitorder=1).int(), plen * 8)
             elif isinstance(p, exp):
                 if p._is_def == 0 and not p._is_top:
-                    # p is "bottom":
-                    p = mem(a, p.size, disp=cur, endian=endian)
+                    # p is "bottom": (parts are listed from the last address
+                    # to the first one in the big-endian case)
+                    off = cur if endian == 1 else l - cur - plen
+                    p = mem(a, p.size, disp=off, endian=endian)
                 elif p.etype==et_ext and p._subrefs.get("mmio_r",None):
                     p = p.stub(self,mode="r")
             P.append(p)
